@@ -14,6 +14,7 @@
     dot (followed by the zone's text when a zone was appended).
 -/
 import DnsModel.Lemmas.NameText
+import DnsModel.Tie.Text
 import DnsModel.Lemmas.Question
 namespace Dns.C14
 open Dns Res
@@ -374,5 +375,13 @@ example : rawNameFromStr [119,119,119,46,69,120,46,99] none = .ok [3,119,119,119
 example : rawNameFromStr [119,119,119,46,69,120,46,99,46] (some [1,122,0]) = .ok [3,119,119,119,2,69,120,1,99,0] := by decide
 example : rawNameFromStr [119,119,119] (some [1,122,0]) = .ok [3,119,119,119,1,122,0] := by decide
 example : rawNameFromStr [119,46,46,119] none = .err .invalidName := by decide
+
+
+/-! ### Tie to the current source text
+`copy_raw_name_from_str` is re-translated from /repo/src/synth/gen.rs by rs2lean.py on every run
+(`Generated/TrText.lean`) and proved equal to the model function used above (`Tie/Text.lean`). -/
+theorem source_from_text (raw name : Bytes) (zone : Option Bytes) :
+    Tr.Text.copy_raw_name_from_str raw name zone = copyRawNameFromStr raw name zone :=
+  Tie.copy_raw_name_from_str_eq raw name zone
 
 end Dns.C14
